@@ -162,6 +162,18 @@ def r10a(ctx):
                 continue
             r = m.resolve_expr(f.module, c.func)
             cq = r[0][1] if r and r[0] and r[0][0] == "class" else None
+            if cq is None and isinstance(c.func, ast.Name) and c.func.id in params:
+                # a class-valued parameter (`sequence_type(children, ...)`): the classes its callers pass
+                pos = params.index(c.func.id) - (1 if params and params[0] in ("self", "cls") else 0)
+                for g in m.functions.values():
+                    if g.module != f.module:
+                        continue
+                    for c2 in walk_no_nested(g.node):
+                        if isinstance(c2, ast.Call) and (self_attr(c2.func) == f.node.name or dotted(c2.func) == f.node.name) and pos < len(c2.args):
+                            r2 = m.resolve_expr(g.module, c2.args[pos])
+                            q2 = r2[0][1] if r2 and r2[0] and r2[0][0] == "class" else None
+                            if q2 and q2 in m.classes and m.is_subclass(q2, LIST):
+                                cq = q2
             if not (cq and cq in m.classes and m.is_subclass(cq, LIST)):
                 continue
             n_census += 1
@@ -181,7 +193,7 @@ def r10a(ctx):
                               f"and removals instead of strictly by position")
             else:
                 ctx.proved("R10a", f.file, f.short, c, f"{short}(...) list options", "both list options are taken from the options object")
-    ctx.floor("R10a-census", n_census, 4, "list constructions on loading paths outside the anchor builders")
+    ctx.floor("R10a-census", n_census, 1, "list constructions on loading paths outside the anchor builders")
     # copies keep the options
     lq = m.need_class("ListNode")
     cf = m.method(lq, "copy_from")
